@@ -37,6 +37,16 @@ def handler(case):
         if phase == "after_set_load":
             i_ = info["inc"]
             st["p0"] = {b.name: sum(float(d[i_]) for d in b.pload_data) * b.n_customers for b in ps.buses}
+            # what every battery holds above its minimum before the increment (the supply it can give is bounded by it, whatever it reports)
+            st["e0"] = {bt.name: (float(bt.E_battery), float(bt.SOC_min) * float(bt.E_max)) for bt in ps.batteries}
+            st["drawn"] = {}
+            if not st.get("wrapped"):
+                st["wrapped"] = True
+                for bt in ps.batteries:           # a start level may be drawn at the first increment of an outage: then that is what was there
+                    def draw(_b=bt, _orig=bt.draw_SOC_state):
+                        _orig()
+                        st["drawn"][_b.name] = float(_b.E_battery)
+                    bt.draw_SOC_state = draw
         elif phase == "before_log":
             dt = (info["curr"] - info["prev"]).get_hours()
             if dt <= 0 or not (ps.failed_comp() or not ps.full_batteries()):
@@ -45,7 +55,16 @@ def handler(case):
                 if any(isinstance(n, Transmission) and n.get_trafo_bus() in sub.buses for n in ps.child_network_list):
                     continue
                 dem = sum(st["p0"].get(b.name, 0.0) for b in sub.buses)
-                sup = sum(max(0.0, float(b.pprod)) for b in sub.buses)
+                sup = 0.0
+                for b in sub.buses:
+                    sb = max(0.0, float(b.pprod))
+                    if b.battery is not None and b.battery.name in st.get("e0", {}) and b.ev_park is None:
+                        e0, emin = st["e0"][b.battery.name]
+                        avail = st.get("drawn", {}).get(b.battery.name, e0) - emin
+                        cap = max(0.0, avail) * float(b.battery.n_battery) / dt
+                        unit = float(b.prod.pprod) if b.prod is not None else 0.0
+                        sb = min(sb, max(0.0, unit) + min(float(b.battery.inj_p_max), cap) + 1e-9)
+                    sup += sb
                 shd = sum(float(b.p_energy_shed_stack) for b in sub.buses) / dt
                 nb = len(sub.buses)
                 if dem > float(ALPHA) * (nb + 1) and shd < dem - sup - 2 * nb * float(ALPHA) - 1e-9:
